@@ -304,7 +304,7 @@ func signerSet(r *core.Rand, n int) []*big.Int {
 func genMusig(g *core.Gen) {
 	r := g.R.Fork()
 	// key aggregation alone: any key format, duplicates, negated keys, sort on/off, tweak chains
-	for i := 0; i < g.N(100, 2000); i++ {
+	for i := 0; i < g.N(80, 2000); i++ {
 		n := r.Intn(8) + 1
 		var ks []string
 		for _, d := range signerSet(r, n) {
@@ -339,7 +339,7 @@ func genMusig(g *core.Gen) {
 		g.Case("noncegen", true, fmt.Sprintf("C11 noncegen %x %x %s %s %s %s", r.Bytes(32), pk.SerializeCompressed(), sk, ak, msg, aux))
 	}
 	// nonce aggregation incl. cancelling nonces (infinity), invalid points, 00-prefixed entries
-	for i := 0; i < g.N(80, 1500); i++ {
+	for i := 0; i < g.N(60, 1500); i++ {
 		n := r.Intn(6) + 1
 		var ns [][]byte
 		for j := 0; j < n; j++ {
@@ -389,7 +389,7 @@ func genMusig(g *core.Gen) {
 		g.Case("nonceagg:"+class, true, "C11 nonceagg "+strings.Join(hs, ","))
 	}
 	// full sessions
-	for i := 0; i < g.N(70, 1500); i++ {
+	for i := 0; i < g.N(40, 1500); i++ {
 		n := r.Intn(8) + 1
 		if r.Chance(1, 3) {
 			n = r.Intn(3) + 1
